@@ -1212,6 +1212,12 @@ func (gen *Generator) GenerateSyntaxQuote(args []Sexp) error {
 	}
 	arg := args[0]
 
+	// nothing inside a template is in tail position: the template is
+	// assembled from the values of its unquoted expressions afterwards.
+	oldtail := gen.Tail
+	gen.Tail = false
+	defer func() { gen.Tail = oldtail }()
+
 	// need to handle arrays, since they can have unquotes
 	// in them too.
 	switch aaa := arg.(type) {
